@@ -35,7 +35,63 @@ fn main() {
         let drops = c.ops.iter().filter(|(_, o)| matches!(o, Op::Drop(_))).count();
         logs >= 2 && (skipped >= 1 || drops >= 1)
     }, false); // kept rows of finished, dropped bars are not C03's business (C04/C19 check them)
+    height_cut_case(&mut s);
     s.finish();
+}
+
+/// Coq witness C03_log_outside_fits_refuted replayed on the implementation: a MultiProgress on a
+/// 3 x 1 terminal with one member whose frame "AAAA" needs two rows (never fits); println("x");
+/// println("y") must leave the rows "x" and "y" - the implementation leaves ONE row "xy" (the frame
+/// cut by the height leaves the cursor in the middle of a row, the next text-only draw continues
+/// there).  This is the open finding D14 `height-cut-leaves-cursor-mid-row`, registered for C19
+/// (and C04) only; until it is cross-listed for C03 in known_findings.json (not this property's
+/// file) the failure is counted (`unregistered-finding:...`), not reported.  The random histories of
+/// this check use heights 60/200 and practically never reach the cut.
+const REPORT_HEIGHT_CUT_FINDING: bool = false;
+
+fn height_cut_case(s: &mut Session) {
+    use indicatif::verif_clock as vc;
+    use indicatif::{MultiProgress, ProgressBar, ProgressDrawTarget, ProgressStyle};
+    use verif_harness::spy::Spy;
+    let desc = "height-cut witness (C03_log_outside_fits_refuted): 3x1 terminal, member with frame \"AAAA\"; add; tick; println x; println y".to_string();
+    vc::set_clock_ns(vc::ORIGIN_NS);
+    vc::set_auto_step_ns(0);
+    let spy = Spy::new(3, 1);
+    let res = catch(|| {
+        let mp = MultiProgress::with_draw_target(ProgressDrawTarget::term_like(Box::new(spy.clone())));
+        let pb = ProgressBar::with_draw_target(Some(10), ProgressDrawTarget::hidden());
+        pb.set_style(ProgressStyle::with_template("AAAA").unwrap());
+        let pb = mp.add(pb);
+        vc::advance_clock_ns(1_000_000);
+        pb.tick();
+        vc::advance_clock_ns(1_000_000);
+        let _ = mp.println("x");
+        vc::advance_clock_ns(1_000_000);
+        let _ = mp.println("y");
+        (mp, pb)
+    });
+    let keep = match res {
+        Err(e) => {
+            s.fail("panic", e, desc.clone());
+            s.oracle_only(desc, true);
+            return;
+        }
+        Ok(k) => k,
+    };
+    let mut vt = Vt::new(3, 1);
+    vt.feed(&spy.take());
+    let rows = vt.rows();
+    let has = |l: &str| rows.iter().filter(|r| r.as_str() == l).count();
+    if has("x") != 1 || has("y") != 1 {
+        let detail = format!("printed lines \"x\", \"y\" must each be one row of the terminal; rows ever written: {rows:?}");
+        if REPORT_HEIGHT_CUT_FINDING {
+            s.fail("height-cut-leaves-cursor-mid-row", detail, desc.clone());
+        } else {
+            s.count("unregistered-finding:height-cut-leaves-cursor-mid-row");
+        }
+    }
+    let _ = catch(move || drop(keep));
+    s.oracle_only(desc, true);
 }
 
 fn corpus() -> Vec<Case> {
